@@ -258,7 +258,7 @@ def execute(case):
 
 
 def replay(case):
-    if "hist" in case and case.get("layer") == "distinct-parent-revisits":
+    if "hist" in case and (case.get("layer") == "distinct-parent-revisits" or case.get("layer", "").startswith("sibling-revisits")):
         return execute(case)["v"]
     if "hist" in case and "k" not in case:
         case = dict(case["model"], k="tree", hist=case["hist"])
